@@ -106,7 +106,7 @@ Record CacheDump := mkCacheDump {
 Record NodeObs := mkNodeObs {
   no_err : Err;
   no_result : option Result;
-  no_proposals : list (list (Event * option Result));  (* per proposal: its events, each with the FSM's result (None: rejected) *)
+  no_proposals : list Proposal;                         (* per proposal: its events, each with the FSM's result (None: rejected) *)
   no_cache : list CacheDump;
   no_sessions : N;                                      (* cache observation: retained sessions *)
   no_dumps : list Dump
@@ -148,6 +148,9 @@ Definition pevent_eqb (a b : Event) : bool :=
   && bytes_eqb (e_vis a) (e_vis b) && Z.eqb (e_at a) (e_at b)
   && tview_eqb (e_payload a) (e_payload b) && Z.eqb (e_updated a) (e_updated b).
 
+Definition pitem_eqb (a b : Event * option Result) : bool :=
+  pevent_eqb (fst a) (fst b) && option_eqb result_eqb (snd a) (snd b).
+
 Definition cache_dump_of (ca : Cache) c t m : list State :=
   match find_session ca c t m with
   | Some s => map snd (ss_states s)
@@ -164,7 +167,7 @@ Fixpoint node_mismatch (st : NodeSt) (steps : list (NodeOp * NodeObs)) : bool :=
     let '(out, st') := node_step st op in
     if err_eqb (ao_err out) (no_err obs)
        && option_eqb result_eqb (ao_result out) (no_result obs)
-       && list_eqb (list_eqb pevent_eqb) (ao_proposals out) (map (map fst) (no_proposals obs))
+       && list_eqb (list_eqb pitem_eqb) (ao_proposals out) (no_proposals obs)
        && cache_agrees (n_cache st') (no_cache obs)
        && (N.of_nat (length (c_sessions (n_cache st'))) =? no_sessions obs)
        && dumps_agree (n_db st') (no_dumps obs)
@@ -344,20 +347,28 @@ Definition dumped_lane (ds : list Dump) hs c t m key : option State :=
   | None => None
   end.
 
-Definition lane_flushed (g : DB) (ds : list Dump) (hs : N) (fin : Event) (cached : State) : bool :=
+(* the lanes the finish has to make durable: open in the cache with a non-empty
+   cached snapshot, not durable before, flush id not used before *)
+Definition lane_pending (g : DB) (hs : N) (fin : Event) (cached : State) : bool :=
   let c := e_channel fin in let t := e_ctype fin in let m := e_msgno fin in
-  if is_empty (s_raw (st_snap cached)) then true
-  else if is_some (get_state g hs c t m (st_key cached)) then true
-  else if is_some (get_applied g hs c t m (finishFlushMessageEventID (e_id fin) (st_key cached))) then true
-  else
-    match dumped_lane ds hs c t m (st_key cached) with
-    | Some s =>
-      isMessageEventTerminal (st_status s)
-      && (bytes_eqb (s_raw (st_snap s)) (s_canon (st_snap cached))
-          || (p_hassnap (e_payload fin) && is_some (p_tsnap (e_payload fin))
-              && bytes_eqb (s_raw (st_snap s)) (p_tsnap_canon (e_payload fin))))
-    | None => false
-    end.
+  negb (is_empty (s_raw (st_snap cached)))
+  && negb (is_some (get_state g hs c t m (st_key cached)))
+  && negb (is_some (get_applied g hs c t m (finishFlushMessageEventID (e_id fin) (st_key cached)))).
+
+Definition lane_finalized (ds : list Dump) (hs : N) (fin : Event) (cached : State) : bool :=
+  match dumped_lane ds hs (e_channel fin) (e_ctype fin) (e_msgno fin) (st_key cached) with
+  | Some s => isMessageEventTerminal (st_status s)
+  | None => false
+  end.
+
+Definition lane_keeps_snapshot (ds : list Dump) (hs : N) (fin : Event) (cached : State) : bool :=
+  match dumped_lane ds hs (e_channel fin) (e_ctype fin) (e_msgno fin) (st_key cached) with
+  | Some s =>
+    bytes_eqb (s_raw (st_snap s)) (s_canon (st_snap cached))
+    || (p_hassnap (e_payload fin) && is_some (p_tsnap (e_payload fin))
+        && bytes_eqb (s_raw (st_snap s)) (p_tsnap_canon (e_payload fin)))
+  | None => false
+  end.
 
 Definition finish_monitor (g : DB) (chan_hs : list (bytes * N)) (cache : list CacheDump) (e : Event) (obs : NodeObs) : N :=
   match normalizeMessageEventAppend e with
@@ -375,10 +386,12 @@ Definition finish_monitor (g : DB) (chan_hs : list (bytes * N)) (cache : list Ca
       else
         match err with
         | ENone =>
-          if match dumped_lane (no_dumps obs) hs c t m EventKeyFinish with
-             | Some s => isMessageEventTerminal (st_status s) | None => false end
-             && forallb (lane_flushed g (no_dumps obs) hs fin) opens
-          then 0
+          let pending := filter (lane_pending g hs fin) opens in
+          if negb (match dumped_lane (no_dumps obs) hs c t m EventKeyFinish with
+                   | Some s => isMessageEventTerminal (st_status s) | None => false end
+                   && forallb (lane_finalized (no_dumps obs) hs fin) pending)
+          then 1
+          else if forallb (lane_keeps_snapshot (no_dumps obs) hs fin) pending then 0
           else if p_obj (e_payload fin) && negb (p_tok (e_payload fin)) then 2 else 1
         | _ => 0      (* failed: nothing durable may change, checked by the table comparison *)
         end
